@@ -2,9 +2,9 @@
    Statements only; proofs in proofs/TrapFlagProofs.v.  [setr b s] is the state s with
    `use_real_traps` set to b (nothing else differs); [trap_entry e vect] is literally the code of
    [handle_interrupt e vect None] after its virtual short-cut. *)
-From Coq Require Import ZArith List Bool Lia.
+From Coq Require Import ZArith List Bool Lia String.
 From Model Require Import Bits Word Instr Sim Load.
-From Proofs Require Import IrqProofs TrapFlagProofs.
+From Proofs Require Import SimStep OsProofs OsContracts IrqProofs TrapFlagProofs TrapOsProofs.
 Import ListNotations.
 Open Scope Z_scope.
 
@@ -35,3 +35,59 @@ Theorem C12_exception_entry : forall e s s' x vect,
   step e (setr true s) = trap_entry e vect (setr true s').
 Proof. exact exception_enters_os. Qed.
 Print Assumptions C12_exception_entry.
+
+(* ---------------------------------------------------------------------------------------------
+   HALT and exceptions over today's OS image (coq/gen/OsImage.v, regenerated from the crate at every
+   check).  [run sc t n s] (proofs/OsProofs.v) is n successful steps of [step_in] under the
+   environments sc t, sc (t+1), ...; [user_ready s sp q buf] (proofs/OsContracts.v): user mode, OS
+   image in place, non-strict, default internal registers, keyboard (interrupts off, queue q) and
+   display (buffer buf) attached, saved supervisor SP = sp; [stop_ready] is the same without the
+   requirement that the PC is in user space.  Both are properties of the user-visible state only:
+   registers, user memory, PC, condition codes, frames, counters are arbitrary. *)
+
+(* A user program at a HALT (TRAP x25): under virtual traps the step reports Halt and changes
+   nothing (PC stays at the HALT); under real traps the machine runs three instructions through the
+   OS (trap entry, AND R7, STI MCR) and stops with the clock off — same display, R0-R5 and user
+   memory. *)
+Theorem C12_halt : forall sc t s sp q buf,
+  user_ready s sp q buf -> OS_END + 2 <= sp <= USER_START ->
+  mget (s_mem s) (s_pc s) = new_init 61477 ->
+  (exists sv, step_in (sc t) (setr false s) = (sv, OHalt) /\
+     s_pc sv = s_pc s /\ s_regs sv = s_regs s /\ s_psr sv = s_psr s /\ s_mem sv = s_mem s /\ s_devs sv = s_devs s /\
+     s_mcr sv = s_mcr s /\ s_instrs sv = s_instrs s) /\
+  (exists sf, run sc t 3 (setr true s) = (sf, OOk) /\
+     s_mcr sf = false /\ s_devs sf = s_devs s /\
+     (forall k, 0 <= k <= 5 -> rget (s_regs sf) k = rget (s_regs s) k) /\
+     (forall a, in_user a = true -> mget (s_mem sf) a = mget (s_mem s) a)).
+Proof. exact halt_agrees. Qed.
+Print Assumptions C12_halt.
+
+(* A user program that stops with a privilege / illegal-opcode / bad-format / access error under
+   virtual traps (in the state s'): under real traps the same machine enters the OS through the
+   exception vector, prints exactly the OS message of that exception (PUTS loop, by induction over
+   the string; the display must not be locked by another thread meanwhile) and stops with the clock
+   off; R1-R5 and user memory are those of s'. *)
+Theorem C12_exception : forall sc t s s' x vect sp q buf,
+  step_in (sc t) (setr false s) = (s', OErr x) -> exc_vector x = Some vect ->
+  stop_ready s' sp q buf -> OS_END + 11 <= sp <= USER_START ->
+  ds_free_from sc (S t) (13 * List.length (exc_msg x) + 17) ->
+  exists sf, run sc t (S (13 * List.length (exc_msg x) + 17)) (setr true s) = (sf, OOk) /\
+    s_mcr sf = false /\ s_devs sf = kdevs q (buf ++ low8 (exc_msg x)) /\
+    (forall a, in_user a = true -> mget (s_mem sf) a = mget (s_mem s') a) /\
+    (forall k, 1 <= k <= 5 -> rget (s_regs sf) k = rget (s_regs s') k).
+Proof. exact exception_prints. Qed.
+Print Assumptions C12_exception.
+
+(* the messages are the strings at the OS labels S_EXC_PRIVL / S_EXC_ILLOP / S_EXC_ACV *)
+Example C12_messages :
+  exc_msg PrivilegeViolation = os_string "S_EXC_PRIVL" /\ exc_msg IllegalOpcode = os_string "S_EXC_ILLOP" /\
+  exc_msg InvalidInstrFormat = os_string "S_EXC_ILLOP" /\ exc_msg AccessViolation = os_string "S_EXC_ACV" /\
+  List.length (exc_msg AccessViolation) = 25%nat /\ hd 0 (exc_msg AccessViolation) = 10.
+Proof. repeat split; vm_compute; reflexivity. Qed.
+
+(* the hypotheses are satisfiable: a fresh machine with keyboard and display and any user-level contents *)
+Example C12_ready_satisfiable : forall fl fill rs pc psr um q buf,
+  fl_strict fl = false -> List.length rs = 8%nat -> psr_privileged psr = false -> in_user pc = true ->
+  Forall (fun p => in_user (fst p) = true) um ->
+  user_ready (user_machine fl fill rs pc psr um q buf) 12288 q buf.
+Proof. exact user_machine_ready. Qed.
